@@ -486,7 +486,7 @@ func writeMarshal(repoRoot, srcRoot, verifRoot string, check bool) int {
 		pkg := ""
 		fmt.Sscanf(after(string(src), "\npackage "), "%s", &pkg)
 		mask3 := strings.Contains(string(src), "mUncompressedInfinity")
-		s := applySections(string(b), map[string]bool{"MASK3": mask3, "MASK2": !mask3})
+		s := applySections(string(b), map[string]bool{"MASK3": mask3, "MASK2": !mask3, "HASISZEROED": strings.Contains(string(src), "\nfunc isZeroed(")})
 		s = strings.ReplaceAll(s, "PKG", pkg)
 		s = strings.ReplaceAll(s, "POINT", "G1")
 		s = strings.ReplaceAll(s, "COORD", "fp.Element")
